@@ -386,13 +386,25 @@ func paramName(fn *types.Func, i int) string {
 // SetAlgebraEffects is C11-a/-b/-d: receiver-only effects, no aliasing, deep
 // Copy and operand field coverage of the connection-set algebra.
 func SetAlgebraEffects(p *core.Program, r *core.Report) {
+	setAlgebraEffects(p, r, "C11", true)
+}
+
+// AccumulatorPurity emits the effect (-a) and aliasing (-b) obligations of the
+// set operations under another rule prefix: the order-independence argument
+// of E1 treats Union/AddConnection/... as commutative accumulators, which
+// holds only if they neither modify nor keep a pointer into their operands.
+func AccumulatorPurity(p *core.Program, r *core.Report, prefix string) {
+	setAlgebraEffects(p, r, prefix, false)
+}
+
+func setAlgebraEffects(p *core.Program, r *core.Report, pre string, withD bool) {
 	sums := Effects(p, core.PkgCommon)
 	types_ := []string{"ConnectionSet", "PortSet"}
 	nMethods := 0
 	for _, tn := range types_ {
 		nt := p.LookupType(core.PkgCommon, tn)
 		if nt == nil {
-			r.Lost("C11-a", "type common."+tn)
+			r.Lost(pre+"-a", "type common."+tn)
 			continue
 		}
 		allFields := map[string]bool{}
@@ -416,7 +428,7 @@ func SetAlgebraEffects(p *core.Program, r *core.Report) {
 			}
 			sort.Strings(w)
 			if sig.Results().Len() > 0 {
-				r.Check(len(s.Writes) == 0, "C11-a", key+": read-only operation writes nothing", pos,
+				r.Check(len(s.Writes) == 0, pre+"-a", key+": read-only operation writes nothing", pos,
 					"no store, map update or mutating call on the receiver or an operand",
 					"an operation that returns a value (query/copy/print) writes to "+strings.Join(w, ", ")+": operands of set operations must not be modified")
 			} else {
@@ -426,7 +438,7 @@ func SetAlgebraEffects(p *core.Program, r *core.Report) {
 						onlyRecv = false
 					}
 				}
-				r.Check(onlyRecv, "C11-a", key+": mutator writes its receiver only", pos,
+				r.Check(onlyRecv, pre+"-a", key+": mutator writes its receiver only", pos,
 					"effects confined to the receiver", "a mutating set operation writes to "+strings.Join(w, ", ")+": operands other than the updated one must not be modified")
 			}
 			// C11-b aliasing
@@ -435,7 +447,7 @@ func SetAlgebraEffects(p *core.Program, r *core.Report) {
 				al = append(al, paramName(m.Obj, k[0])+" -> "+paramName(m.Obj, k[1]))
 			}
 			sort.Strings(al)
-			r.Check(len(al) == 0, "C11-b", key+": no operand pointer stored into another object", pos,
+			r.Check(len(al) == 0, pre+"-b", key+": no operand pointer stored into another object", pos,
 				"every stored pointer is fresh (Copy(), constructor or library operation returning a fresh set)",
 				"a pointer/map reachable from one object is stored into another ("+strings.Join(al, "; ")+"): a later update of one silently changes the other")
 			if sig.Results().Len() > 0 {
@@ -445,7 +457,7 @@ func SetAlgebraEffects(p *core.Program, r *core.Report) {
 				}
 				sort.Strings(ra)
 				// accessors that hand out scalars are fine; pointer-like results must be fresh
-				r.Check(len(ra) == 0, "C11-b", key+": result does not alias an operand", pos,
+				r.Check(len(ra) == 0, pre+"-b", key+": result does not alias an operand", pos,
 					"pointer-like results are fresh", "the result aliases the structure of "+strings.Join(ra, ", "))
 			}
 			// C11-b deep copy: Copy reads every field of its receiver
@@ -458,14 +470,17 @@ func SetAlgebraEffects(p *core.Program, r *core.Report) {
 					}
 				}
 				sort.Strings(missing)
-				r.Check(len(missing) == 0, "C11-b", key+": Copy covers every field", pos,
+				r.Check(len(missing) == 0, pre+"-b", key+": Copy covers every field", pos,
 					"reads "+setNames(got), "Copy does not read field(s) "+strings.Join(missing, ",")+" of the receiver: the copy loses or shares that part")
 			}
 		}
 	}
-	r.RuleCounts["C11-methods"] = nMethods
-	r.Floor("C11-methods", 30)
+	r.RuleCounts[pre+"-methods"] = nMethods
+	r.Floor(pre+"-methods", 30)
 
+	if !withD {
+		return
+	}
 	// C11-d operand field coverage of the binary PortSet operations
 	want := map[string][2][]string{ // method -> {fields of receiver, fields of operand}
 		"Equal":        {{"Ports", "NamedPorts", "ExcludedNamedPorts"}, {"Ports", "NamedPorts", "ExcludedNamedPorts"}},
@@ -482,7 +497,7 @@ func SetAlgebraEffects(p *core.Program, r *core.Report) {
 	for _, name := range names {
 		m := p.Func(core.PkgCommon, "PortSet", name)
 		if m == nil {
-			r.Lost("C11-d", "(*PortSet)."+name)
+			r.Lost(pre+"-d", "(*PortSet)."+name)
 			continue
 		}
 		s := sums[m.Obj]
@@ -502,10 +517,10 @@ func SetAlgebraEffects(p *core.Program, r *core.Report) {
 					missing = append(missing, f)
 				}
 			}
-			r.Check(len(missing) == 0, "C11-d", fmt.Sprintf("%s: consults %s of its %s", m.Key(), strings.Join(want[name][side], "+"), label), p.Pos(m.Decl.Pos()),
+			r.Check(len(missing) == 0, pre+"-d", fmt.Sprintf("%s: consults %s of its %s", m.Key(), strings.Join(want[name][side], "+"), label), p.Pos(m.Decl.Pos()),
 				"reads/updates "+setNames(got),
 				fmt.Sprintf("the operation never consults %s of its %s, so two port sets differing only there are treated alike (a named port is a (protocol, name) point of the set)", strings.Join(missing, ","), label))
 		}
 	}
-	r.Floor("C11-d", 10)
+	r.Floor(pre+"-d", 10)
 }
